@@ -165,3 +165,115 @@ Proof.
   fold (raw_sum g (pixel_rot g r c)).
   rewrite (weight_sperm g a0 a1 a2 b0 b1 b2 (pixel_rot g r c) pt _ _ Hp Hrot Hprop E1 E2). reflexivity.
 Qed.
+
+(* ---------------------------------------------------------------- the whole voxel line is among the candidates *)
+Lemma Qfloor_plus_int' (x : Q) (n : Z) : Qfloor (x + inject_Z n) = (Qfloor x + n)%Z.
+Proof. apply Qfloor_plus_int. Qed.
+
+Lemma pt_ext_perm a0 a1 a2 (p q : pt3) : is_perm a0 a1 a2 ->
+  comp a0 p = comp a0 q -> comp a1 p = comp a1 q -> comp a2 p = comp a2 q -> p = q.
+Proof.
+  intros Hp. destruct p as [[pz py] px], q as [[qz qy] qx].
+  perm_cases a0 a1 a2 Hp; cbn [comp]; intros; subst; reflexivity.
+Qed.
+
+(* offset along one axis *)
+Definition unit_or_zero (a : ax) (one : bool) : pt3 :=
+  if one then match a with AZ => (1, 0, 0) | AY => (0, 1, 0) | AX => (0, 0, 1) end%Z else (0, 0, 0)%Z.
+
+Lemma unit_or_zero_In a one : In (unit_or_zero a one) offsets.
+Proof. destruct a, one; cbn; tauto. Qed.
+
+Lemma comp_unit_same a one : comp a (unit_or_zero a one) = if one then 1%Z else 0%Z.
+Proof. destruct a, one; reflexivity. Qed.
+
+Lemma comp_unit_other a a' one : a' <> a -> comp a' (unit_or_zero a one) = 0%Z.
+Proof. intros H. destruct a, a', one; try reflexivity; congruence. Qed.
+
+Lemma sgn_int b (k : Z) : sgn b * inject_Z k == inject_Z ((if b then 1 else -1) * k).
+Proof. rewrite inject_Z_mult. destruct b; reflexivity. Qed.
+
+Lemma cands_sperm_line g a0 a1 a2 b0 b1 b2 pr u1 u2 pt :
+  is_perm a0 a1 a2 -> rot g = sperm_mat a0 a1 a2 b0 b1 b2 -> (0 <= width g)%Z ->
+  comp a1 pr == inject_Z u1 -> comp a2 pr == inject_Z u2 ->
+  comp a1 pt = u1 -> comp a2 pt = u2 ->
+  (Qfloor (comp a0 pr) - width g <= comp a0 pt <= Qfloor (comp a0 pr) + width g + 1)%Z ->
+  In pt (cands g pr).
+Proof.
+  intros Hp Hrot Hw H1 H2 P1 P2 Hz. unfold cands. rewrite Hrot. apply in_flat_map.
+  pose proof Hp as [N01 [N02 N12]].
+  set (M := sperm_mat a0 a1 a2 b0 b1 b2).
+  (* the three components of a candidate for ray step k and offset (a0, one) *)
+  assert (C : forall k one,
+     comp a0 (vfloor (vadd (vadd pr (mv M (inject_Z k, 0, 0))) (vofz (unit_or_zero a0 one))))
+       = (Qfloor (comp a0 pr) + (if b0 then 1 else -1) * k + (if one then 1 else 0))%Z
+     /\ comp a1 (vfloor (vadd (vadd pr (mv M (inject_Z k, 0, 0))) (vofz (unit_or_zero a0 one)))) = u1
+     /\ comp a2 (vfloor (vadd (vadd pr (mv M (inject_Z k, 0, 0))) (vofz (unit_or_zero a0 one)))) = u2).
+  { intros k one. destruct (mv_sperm a0 a1 a2 b0 b1 b2 (inject_Z k, 0, 0) Hp) as [E0 [E1 E2]]. fold M in E0, E1, E2.
+    cbn [comp] in E0, E1, E2.
+    rewrite !comp_vfloor, !comp_vadd, !comp_vofz.
+    rewrite comp_unit_same, (comp_unit_other a0 a1 one), (comp_unit_other a0 a2 one) by congruence.
+    repeat split.
+    - rewrite (Qfloor_comp _ (comp a0 pr + inject_Z ((if b0 then 1 else -1) * k + (if one then 1 else 0)))).
+      + rewrite Qfloor_plus_int. lia.
+      + rewrite E0, sgn_int, inject_Z_plus. ring.
+    - rewrite (Qfloor_comp _ (inject_Z u1)); [apply Qfloor_Z|]. rewrite E1, H1. change (inject_Z 0) with 0. ring.
+    - rewrite (Qfloor_comp _ (inject_Z u2)); [apply Qfloor_Z|]. rewrite E2, H2. change (inject_Z 0) with 0. ring. }
+  destruct (Z_le_gt_dec (comp a0 pt) (Qfloor (comp a0 pr) + width g)) as [Hle|Hgt].
+  - exists (unit_or_zero a0 false). split; [apply unit_or_zero_In|]. apply in_map_iff.
+    exists ((if b0 then 1 else -1) * (comp a0 pt - Qfloor (comp a0 pr)))%Z. split.
+    + destruct (C ((if b0 then 1 else -1) * (comp a0 pt - Qfloor (comp a0 pr)))%Z false) as [C0 [C1 C2]].
+      apply (pt_ext_perm a0 a1 a2 _ _ Hp); [rewrite C0|rewrite C1|rewrite C2]; try congruence.
+      destruct b0; lia.
+    + apply ray_ks_In; [exact Hw|]. destruct b0; lia.
+  - exists (unit_or_zero a0 true). split; [apply unit_or_zero_In|]. apply in_map_iff.
+    exists ((if b0 then 1 else -1) * width g)%Z. split.
+    + destruct (C ((if b0 then 1 else -1) * width g)%Z true) as [C0 [C1 C2]].
+      apply (pt_ext_perm a0 a1 a2 _ _ Hp); [rewrite C0|rewrite C1|rewrite C2]; try congruence.
+      destruct b0; lia.
+    + apply ray_ks_In; [exact Hw|]. destruct b0; lia.
+Qed.
+
+(* every in-volume voxel of the line within the candidate window has an entry in the row *)
+Lemma row_sperm_complete g r c a0 a1 a2 b0 b1 b2 pt :
+  is_perm a0 a1 a2 -> rot g = sperm_mat a0 a1 a2 b0 b1 b2 -> (0 <= width g)%Z ->
+  Z.even (ny g) = Z.even (comp a1 (dimv g)) -> Z.even (nx g) = Z.even (comp a2 (dimv g)) ->
+  inside g pt = true -> comp a1 pt = lat_y g a1 b1 r -> comp a2 pt = lat_x g a2 b2 c ->
+  (Qfloor (comp a0 (pixel_rot g r c)) - width g <= comp a0 pt <= Qfloor (comp a0 (pixel_rot g r c)) + width g + 1)%Z ->
+  exists w, In (pt, w) (row g r c).
+Proof.
+  intros Hp Hrot Hw Py Px Hin P1 P2 Hz.
+  destruct (pixel_rot_sperm g r c a0 a1 a2 b0 b1 b2 Hp Hrot) as [E0 [E1 E2]].
+  rewrite (lattice_coord_spec b1 _ _ _ Py) in E1. rewrite (lattice_coord_spec b2 _ _ _ Px) in E2.
+  assert (Hc : In pt (cands g (pixel_rot g r c))).
+  { apply (cands_sperm_line g a0 a1 a2 b0 b1 b2 _ _ _ pt Hp Hrot Hw E1 E2 P1 P2 Hz). }
+  assert (Hd : In pt (dedup (filter (inside g) (cands g (pixel_rot g r c))))).
+  { apply dedup_In. apply filter_In. split; assumption. }
+  unfold row, coalesced. eexists. apply in_map_iff. eexists (_, _). split; [reflexivity|].
+  apply in_map_iff. exists pt. split; [reflexivity|exact Hd].
+Qed.
+
+(* THEOREM (any signed permutation rotation, rectangular profile of half-width h <= width): every in-volume voxel of the line
+   whose distance along the normal is at most h has an entry, and all of them carry the same weight *)
+Theorem rect_sperm_taps g r c a0 a1 a2 b0 b1 b2 h :
+  is_perm a0 a1 a2 -> rot g = sperm_mat a0 a1 a2 b0 b1 b2 -> prof g = rect h -> 0 <= h -> h <= inject_Z (width g) ->
+  Z.even (ny g) = Z.even (comp a1 (dimv g)) -> Z.even (nx g) = Z.even (comp a2 (dimv g)) ->
+  forall pt, inside g pt = true -> comp a1 pt = lat_y g a1 b1 r -> comp a2 pt = lat_x g a2 b2 c ->
+  Qabs (line_n g a0 b0 - inject_Z (comp a0 pt)) <= h ->
+  exists w, In (pt, w) (row g r c)
+            /\ w == fraction_in_view g (pixel_rot g r c) / (raw_sum g (pixel_rot g r c) + eps).
+Proof.
+  intros Hp Hrot Hprof Hh0 Hhw Py Px pt Hin P1 P2 Hd.
+  assert (Hw : (0 <= width g)%Z).
+  { assert (L : inject_Z 0 <= inject_Z (width g)) by (change (inject_Z 0) with 0; lra). rewrite <- Zle_Qle in L. exact L. }
+  assert (Hprop : Proper (Qeq ==> Qeq) (prof g)) by (rewrite Hprof; apply rect_comp).
+  destruct (pixel_rot_sperm g r c a0 a1 a2 b0 b1 b2 Hp Hrot) as [E0 _]. fold (line_n g a0 b0) in E0.
+  destruct (row_sperm_complete g r c a0 a1 a2 b0 b1 b2 pt Hp Hrot Hw Py Px Hin P1 P2) as [w Hwin].
+  { apply (support_in_window _ h); [exact Hhw|]. rewrite E0. exact Hd. }
+  exists w. split; [exact Hwin|].
+  destruct (row_sperm g r c a0 a1 a2 b0 b1 b2 Hp Hrot Hprop Py Px) as [a [Ha Hall]].
+  rewrite (Hall _ _ Hwin). rewrite P1, P2, !Z.eqb_refl. cbn [andb]. rewrite Hprof. unfold rect.
+  assert (E : Qle_bool (Qabs (sgn b0 * (a - inject_Z (comp a0 pt)))) h = true).
+  { apply Qle_bool_iff. rewrite Qabs_sgn_mult, Ha. exact Hd. }
+  rewrite E. ring.
+Qed.
